@@ -497,14 +497,30 @@ pub fn run_world<'s, 'env: 's>(world: &'env WorldSpec, scratch: &'env Scratch, p
     res
 }
 
+/// In fork-server children the result goes to fd 1 as a frame (see zygote.rs); otherwise as a JSON line.
+pub static RESULT_FRAMED: AtomicBool = AtomicBool::new(false);
+
+pub fn emit_result(res: &SessionResult) {
+    let json = serde_json::to_vec(res).unwrap();
+    if RESULT_FRAMED.load(Ordering::SeqCst) {
+        let mut frame = Vec::with_capacity(json.len() + 5);
+        frame.push(b'R');
+        frame.extend_from_slice(&(json.len() as u32).to_le_bytes());
+        frame.extend_from_slice(&json);
+        crate::zygote::write_all_fd(1, &frame);
+    } else {
+        println!("{}", String::from_utf8_lossy(&json));
+    }
+}
+
 /// Nodes are parked for ever: the session cannot continue. Report what we have and leave the process.
 fn bail_stuck(res: &mut WorldResult, rep: crate::sched::SchedReport) -> ! {
     res.sched = rep;
     res.monitor_hits.push(MonitorHit { class: String::new(), monitor: "stuck".into(), node: 0, op: 0, what: "no node reached a yield point within the watchdog".into() });
     let mut partial = PARTIAL.lock().unwrap_or_else(|e| e.into_inner()).clone();
     partial.worlds.push(std::mem::take(res));
-    println!("{}", serde_json::to_string(&partial).unwrap());
-    std::process::exit(0);
+    emit_result(&partial);
+    unsafe { libc::_exit(0) }
 }
 
 static PARTIAL: Mutex<SessionResult> = Mutex::new(SessionResult { worlds: vec![], aslr_disabled: false, entropy_calls: 0 });
